@@ -207,6 +207,9 @@ func (p c05) hostileSession(c *fw.Ctx, uniq *int) []string {
 			in = append(in, s)
 		}
 		in = append(in, "for "+fresh("i")+" = 3 {print(\"ok\")}")
+		// a loop left by return, used as an operand next to another loop
+		in = append(in, "(for i = 3 {if i == 1 {return i}}) + (for j = 5 {j})", "[for i = 3 {if i == 1 {return i}}, for j = 5 {j}, for k = 2:7 {k}]",
+			"func "+fresh("f")+"() {x = (for i = 3 {if i == 2 {return i}}); y = (for j = 9 {j}); [x, y]}()", "print((for i = 1:4 {if i == 2 {return i}}), (for j = 7 {j}))")
 	case 3: // loop in a function called many times, with early return
 		fn := fresh("f")
 		v := fresh("i")
@@ -222,6 +225,8 @@ func (p c05) hostileSession(c *fw.Ctx, uniq *int) []string {
 		in = append(in, "func "+fn+"(a, b) {inc = () => {a = a + 1; a}; x = inc() + inc(); b = b * 2; [a, b, x]}")
 		in = append(in, fn+"(1, 2)", fn+"(1, 2.5)", fn+"(\"s\", 3)")
 		in = append(in, "func "+fn+"r(n) {if n <= 0 {return 0}; n + "+fn+"r(n - 1)}", fn+"r(30)")
+		// a parameter name given twice
+		in = append(in, "func "+fn+"d(a, a) {a}", fn+"d(1, 2)", fn+"d(1, 2.5)", fn+"d(\"s\", 3)", "func "+fn+"e(a, b, a) {a = a + 1; [a, b]}", fn+"e(1, 2, 3)", fn+"e(1.5, 2, 3)", "((z, z) => z * 2)(4, 5)")
 	case 5, 6, 7: // every way a body can mention the name of an integer parameter or counted-loop variable
 		v := fresh("i")
 		uses := []string{"print(V)", "print(a[0:V])", "print(a[V:])", "print(a[V:3])", "print(s[0:V], s[V:], s[V])", "print(m.V)", "print(m[\"V\"])", "print({\"V\": V})", "print({V: V})",
@@ -238,7 +243,8 @@ func (p c05) hostileSession(c *fw.Ctx, uniq *int) []string {
 			"print({V: () => V})", "print({\"a\": {\"b\": [x => x + V]}}.a.b[0](1))", "print(if V > 0 {{\"f\": () => V}.f()} else {0})",
 			// the name updated more than once inside one expression: every operand is the value at the time it was evaluated
 			"print((++V) + (++V))", "print(++V == ++V)", "print(++V * --V)", "print((--V) - (--V), V)", "print([++V, ++V, V])", "print((V++) + (V++), V)", "print(V + (++V), (++V) + V)", "print((++V) * 10 + (V++))",
-			"x = ++V; --V; print(x, V)", "print(++V < ++V, --V <= V)", "print({\"a\": ++V, \"b\": ++V})", "print(max(++V, ++V), min(--V, V))", "print((V = V + 1) + (V = V + 1))", "print(-(++V), !(++V == V))"}
+			"x = ++V; --V; print(x, V)", "print(++V < ++V, --V <= V)", "print({\"a\": ++V, \"b\": ++V})", "print(max(++V, ++V), min(--V, V))", "print((V = V + 1) + (V = V + 1))", "print(-(++V), !(++V == V))",
+			"print({V: print(\"a\"), V: print(\"b\")})", "print({V: 1, V: 2, 9: V})", "print([{V: V, V: print(\"c\")}])"}
 		setup := "cv = 0; qv = 0; bm = {0: \"a\", 1: \"b\", 2: \"c\", 3: \"d\", 4: \"e\", 5: \"f\", \"s\": 1, 2.5: 2}; ba = [0, 1, 2, 3, 4, 5, 6, 7, 8, 9, 10]; a = [10, 20, 30, 40]; m = {\"V\": 5, \"k\": 1, 1: \"one\"}; mf = {\"V\": z => z * 3}; s = \"hello\"; t = 0"
 		var body []string
 		for k := 0; k < 1+r.IntN(4); k++ {
@@ -252,9 +258,15 @@ func (p c05) hostileSession(c *fw.Ctx, uniq *int) []string {
 			if strings.Contains(loop, "continue") && r.IntN(2) == 0 {
 				loop = strings.Replace(loop, "continue", "break", 1)
 			}
+			if r.IntN(6) == 0 && !strings.Contains(loop, "return") { // the loop inside a function named like its variable
+				loop = "func V() {" + loop + "}; V()"
+			}
 			in = append(in, strings.ReplaceAll(setup, "V", v), strings.ReplaceAll(loop, "V", v), "for jq = 7 {}", "[a, m, s, t, cv, qv]")
 		} else {
 			fn := fresh("f")
+			if r.IntN(6) == 0 {
+				fn = v // a parameter named like the function it belongs to is still the parameter
+			}
 			b := strings.ReplaceAll(strings.Join(body, "; "), "continue", "return 0")
 			in = append(in, strings.ReplaceAll(setup, "V", v), strings.ReplaceAll("func "+fn+"(V, w) {"+b+"; [V, w]}", "V", v))
 			for k := 0; k < 1+r.IntN(3); k++ {
